@@ -279,10 +279,11 @@ class Engine:
         return VBytes(arr, t.ZERO, ln)
 
     def assume_byte_range(self, st, arr, off, ln):
-        i = t.var('i!', t.INT)
-        body = t.implies(t.and_(t.le(t.ZERO, i), t.lt(i, ln)),
-                         t.and_(t.le(t.ZERO, t.select(arr, t.add(off, i))), t.lt(t.select(arr, t.add(off, i)), I(256))))
-        st.assume(t.forall([i], body, pats=[[t.select(arr, t.add(off, i))]]))
+        # stated over the absolute index so that the pattern (select arr j) fires for every index term
+        j = t.var('i!', t.INT)
+        body = t.implies(t.and_(t.le(off, j), t.lt(j, t.add(off, ln))),
+                         t.and_(t.le(t.ZERO, t.select(arr, j)), t.lt(t.select(arr, j), I(256))))
+        st.assume(t.forall([j], body, pats=[[t.select(arr, j)]]))
 
     # ================================================================= expressions
     def ev(self, e, st):
@@ -955,6 +956,13 @@ class Engine:
                     if entry.known(t.app(tester, t.BOOL, v0.t)) is True:
                         head.assume(t.app(tester, t.BOOL, v1.t))
                         stable.append((name, tester))
+        # heap frame (C17): carried through every loop whose body may touch the heap
+        frame_on = False
+        if self.models.interface is not None and self.models.interface.loop_touches_heap(n):
+            self.models.interface.havoc_heap(self, head)
+            for label, cond in self.models.interface.loop_frame_clauses(self, head):
+                head.assume(cond)
+            frame_on = True
         # adversarial streams: 'no short read/write has been silently accepted so far' is carried through every loop
         shorts = []
         for loc, o0 in entry.store.items():
@@ -1003,6 +1011,9 @@ class Engine:
                                 if isinstance(vv, VInt) and tester == 'isint':
                                     goal = t.TRUE
                                 self.emit(st2, '%s/loop[%s]/preserve/type-of-%s' % (fname, text, name), goal, kind='loop-preserve', tags=spec.tags)
+                            if frame_on:
+                                for label, cond in self.models.interface.loop_frame_clauses(self, st2):
+                                    self.emit(st2, '%s/loop[%s]/preserve/%s' % (fname, text, label), cond, kind='loop-preserve', tags=('C17',))
                             for loc, s0 in shorts:
                                 o2 = st2.store.get(loc)
                                 self.emit(st2, '%s/loop[%s]/preserve/no-silent-short-io' % (fname, text), t.implies(t.not_(s0), t.not_(o2.extra['__short'].t)),
